@@ -669,8 +669,14 @@ def run_hist(op, a):
         out = {"kind": "steps", "steps": []}
         with np.errstate(all="ignore"):
             out["steps"].append(observe(ttb, np, apply_op(ttb, np, op0, X, R0)))
-            for sub, val in h["assign"]:
-                X[tuple(int(x) for x in sub)] = float(val)
+            keys = h.get("keys") or []
+            for j, (sub, val) in enumerate(h["assign"]):
+                if j < len(keys) and keys[j] == "array":
+                    # S[M] = v with a 1 x N subscript array: sptensor._set_subscripts
+                    X[np.array([[int(x) for x in sub]], dtype=int)] = float(val)
+                else:
+                    # S[i1, ..., iN] = v: sptensor._set_subtensor, scalar right-hand side
+                    X[tuple(int(x) for x in sub)] = float(val)
             xs, xv = raw_sparse(np, X, nd)
             out["state"] = {"shape": [int(d) for d in X.shape], "subs": xs, "vals": xv}   # the object after its history, raw
             if h["who"] == "A":
